@@ -46,9 +46,25 @@ class _deadline:
         return False
 
 
+def _scratch_function():
+    """a function as an interactive session / exec / runpy / an importlib-mode test module defines it: its module cannot be
+    imported by name, so dill pickles it by value together with the globals it uses"""
+    ns = {"__name__": "scratchpad_of_the_harness", "K": 41}
+    exec("def calc():\n    return K + 1\n", ns)
+    return ns["calc"]
+
+
+def dumps_kw(case):
+    kw = dict(case.get("dill") or {})
+    if case.get("proto") is not None:
+        kw["protocol"] = case["proto"]
+    return kw
+
+
 def build_graph(case):
     """returns (world, root universe); world left OPEN (caller closes)"""
     w = H.World()
+    scratch = _scratch_function() if case.get("scratchfn") else None
     for op in case["ops"]:
         w.do(op)
     for i, o in enumerate(w.objs):
@@ -62,6 +78,12 @@ def build_graph(case):
             if case.get("closures") and i % 3 == 1:
                 # a callback stored on the vertex that closes over ANOTHER graph object (dill pickles it by value)
                 o.cb = (lambda t: (lambda: t.uid))(w.objs[(i * 7 + 1) % len(w.objs)])
+            if scratch is not None and i % 3 != 1:
+                o.calc = scratch             # one function object shared by several vertices; it reads a global of its own module
+    if case.get("lawless"):
+        for i, o in enumerate(w.objs):
+            if H.kind_of(o) == "KUniverse" and (i % 3 != 2):
+                o.laws = None
     H.install_main_classes()
     H.MainV.ROOT = next((o for o in w.objs if type(o) is H.MainV), None) if case.get("main_root") else None
     root = w.objs[case["u"]]
@@ -122,8 +144,9 @@ class RoundTrip(Leg):
     checkfn = "(fun b : bool => b)"
     case_type = "bool"
     rule = ("random graphs (cycles, self-loops, parallel edges, a universe inside a surrounding graph, subclasses, runtime attributes incl. "
-            "nested containers and (1 in 5) 70 kB strings, warm neighbour caches) dumped with nrpickler.dumps under a random protocol "
-            "0-5, loaded with pickle and dill, in-process and in a FRESH interpreter, caching off / on on either side; the copy's "
+            "nested containers, (1 in 5) 70 kB strings, closures over graph objects and a function of a module that cannot be imported (pickled by value with its "
+            "globals), warm neighbour caches) dumped with nrpickler.dumps under a random protocol "
+            "0-5 and random dill settings (recurse / byref), loaded with pickle and dill, in-process and in a FRESH interpreter, caching off / on on either side; the copy's "
             "canonical snapshot (qualified class names, uids, attributes, ordered links / ends / members, sharing) must equal the "
             "original's, every structural query and traversal must answer alike, and no object may be shared with the original")
     quick_n = 30
@@ -148,11 +171,16 @@ class RoundTrip(Leg):
                 ops = [([op[0], 5] + op[2:]) if op[0] == "NV" and len(op) == 4 and rng.random() < 0.6 else op for op in ops]
                 main_root = rng.random() < 0.5
             if rng.random() < 0.3:      # vertices of a class that dill must pickle by value (defined in a function, uses super())
-                ops = [([op[0], 4] + op[2:]) if op[0] == "NV" and len(op) == 4 and rng.random() < 0.5 else op for op in ops]
+                ops = [([op[0], rng.choice([4, 4, 7])] + op[2:]) if op[0] == "NV" and len(op) == 4 and rng.random() < 0.5 else op for op in ops]
             if rng.random() < 0.3:      # vertices with value semantics (__eq__ / __hash__ on the uid)
                 ops = [([op[0], 3] + op[2:]) if op[0] == "NV" and len(op) == 4 and rng.random() < 0.7 else op for op in ops]
             yield {"ops": ops, "u": u, "root": rng.choice(["universe", "universe", "vertex", "link", "closure"]), "main_root": main_root,
-                   "closures": rng.random() < 0.3,
+                   "closures": rng.random() < 0.3, "scratchfn": rng.random() < 0.3,
+                   "lawless": rng.random() < 0.3,        # some universes have had their law set taken away (`u.laws = None`)
+                   # dill's own settings, which nrpickler.dumps hands through
+                   # (byref=True asks for classes by reference: not for graphs whose classes cannot be imported by name)
+                   "dill": rng.choice([None, None, None, {"recurse": True}, {"recurse": True}, {"recurse": False, "byref": False}]
+                                      + ([] if any(op[0] == "NV" and op[1] in (4, 5, 7) for op in ops) else [{"byref": True}])),
                    "proto": rng.choice([0, 1, 2, 3, 4, 5, None]), "warm": rng.choice([False, True, "filtered", "filtered", "unpicklable"]),
                    "cache_dump": rng.random() < 0.5, "cache_load": rng.random() < 0.6, "big": rng.random() < 0.2,
                    "fresh": i % 4 == 0}
@@ -164,7 +192,7 @@ class RoundTrip(Leg):
         try:
             try:
                 with _deadline(30):
-                    data = nrpickler.dumps(root) if case["proto"] is None else nrpickler.dumps(root, protocol=case["proto"])
+                    data = nrpickler.dumps(root, **dumps_kw(case))
             except _Timeout:
                 return {"problems": ["nrpickler.dumps did not return within 30 s on a graph of "
                                      f"{len(w.objs)} objects (the recursive picklers take milliseconds)"]}
@@ -197,7 +225,7 @@ class RoundTrip(Leg):
                 if any(id(o) in orig_ids for o in order):
                     problems.append(f"copy loaded with {loader} shares an object with the original")
                 try:
-                    stale = PS.mutate_and_compare(copy)      # the copy is a live graph of its own (edited last: it is discarded)
+                    stale = PS.mutate_and_compare(copy, twin=pickle.loads(data) if loader == "pickle" else dill.loads(data))      # the copy is a live graph of its own (edited last: it is discarded)
                 except Exception as e:  # noqa: BLE001
                     stale = f"editing the loaded copy raised {type(e).__name__}: {e}"
                 if stale:
@@ -262,7 +290,8 @@ class StreamEquality(Leg):
     checkfn = "(fun b : bool => b)"
     case_type = "bool"
     rule = ("opcode stream of nrpickler.dumps compared with recursive dill.dumps (recursion limit raised) modulo FRAME, protocols 0-5, "
-            "on the same random graphs (incl. 70 kB string attributes that take pickle's large-object write path)")
+            "on the same random graphs (incl. 70 kB string attributes that take pickle's large-object write path, a function pickled by value "
+            "with its globals, dill's recurse setting)")
     quick_n = 36
     thorough_n = 1200
     extended_factor = 3
@@ -271,16 +300,19 @@ class StreamEquality(Leg):
     def generate(self, rng, n):
         for _ in range(n):
             ops, u, vids = R.gen_render_graph(rng)
-            yield {"ops": ops, "u": u, "proto": rng.randrange(6), "big": rng.random() < 0.25, "warm": rng.random() < 0.3, "cache_dump": False}
+            yield {"ops": ops, "u": u, "proto": rng.randrange(6), "big": rng.random() < 0.25, "warm": rng.random() < 0.3, "cache_dump": False,
+                   # (no closures over graph objects here: dill fills such cells afterwards when the object is on its recursion
+                   # stack and directly when it is not - the two streams then differ legitimately; the round trip leg has them)
+                   "scratchfn": rng.random() < 0.3, "dill": rng.choice([None, None, {"recurse": True}])}
 
     def observe(self, case):
         w, root = build_graph(case)
         try:
-            a = nrpickler.dumps(root, protocol=case["proto"])
+            a = nrpickler.dumps(root, **dumps_kw(case))
             old = sys.getrecursionlimit()
             sys.setrecursionlimit(50000)
             try:
-                b = dill.dumps(root, protocol=case["proto"])
+                b = dill.dumps(root, **dumps_kw(case))
             finally:
                 sys.setrecursionlimit(old)
             oa, ob = opcodes(a), opcodes(b)
@@ -507,7 +539,8 @@ class Scheduler(Leg):
     checkfn = "pcheck2"
     case_type = "list ((nat * nat) * list action) * list nat * nat * (nat * list nat)"
     rule = ("small random graphs (4 in 10 with vertices of a by-value class, whose classes and functions the repaired pickler saves "
-            "atomically: their object ids are the model's `atomic` set): dill's own recursive save() is traced into per-invocation action lists (write / memoize / save "
+            "atomically: their object ids are the model's `atomic` set; 3 in 10 with a function pickled by value with its globals, whose late memo fetch the "
+            "pickler queues as a promise): dill's own recursive save() is traced into per-invocation action lists (write / memoize / save "
             "child, keyed by memo length at entry and object), which become the model's `expand` table; the model's queue scheduler "
             "AND its recursive saver must then both produce exactly the chunk stream (PUT/MEMOIZE positions included) and memo "
             "length observed on the real _NonrecursivePickler; protocols 0-5")
@@ -523,7 +556,7 @@ class Scheduler(Leg):
             ops.append(["NU", members, None])
             if rng.random() < 0.4:
                 ops = [([op[0], 4] + op[2:]) if op[0] == "NV" and len(op) == 4 and rng.random() < 0.7 else op for op in ops]
-            yield {"ops": ops, "u": u, "proto": rng.randrange(6), "warm": False, "cache_dump": False}
+            yield {"ops": ops, "u": u, "proto": rng.randrange(6), "warm": False, "cache_dump": False, "scratchfn": rng.random() < 0.3}
 
     def observe(self, case):
         w, root = build_graph(case)
